@@ -354,3 +354,161 @@ Proof.
   intros W Hr Hv. unfold epub_build. apply build_void_selfclosed; auto.
   apply e_end_removable with (remove := remove); assumption.
 Qed.
+
+(* ------------------------------------------------------------------ simulation between two instances *)
+Section Sim.
+  Variable V1 V2 : Type.
+  Variable remove void : list str.
+  Variable s1 : V1 -> str -> attrs_raw -> V1.
+  Variable e1 : V1 -> str -> V1.
+  Variable d1 : V1 -> str -> V1.
+  Variable s2 : V2 -> str -> attrs_raw -> V2.
+  Variable e2 : V2 -> str -> V2.
+  Variable d2 : V2 -> str -> V2.
+  Variable f : V1 -> V2.
+  Variable P : V1 -> Prop.
+  Hypothesis Ps : forall v g a, P v -> P (s1 v g a).
+  Hypothesis Pe : forall v g, P v -> P (e1 v g).
+  Hypothesis Pd : forall v x, P v -> P (d1 v x).
+  Hypothesis Fs : forall v g a, P v -> f (s1 v g a) = s2 (f v) g a.
+  Hypothesis Fe : forall v g, P v -> f (e1 v g) = e2 (f v) g.
+  Hypothesis Fd : forall v x, P v -> f (d1 v x) = d2 (f v) x.
+
+  Definition mapst (st : sk V1) : sk V2 := mkSk (f (vis st)) (depth st) (stag st).
+
+  Lemma sim_step st e : P (vis st) ->
+    step remove void s2 e2 d2 (mapst st) e = mapst (step remove void s1 e1 d1 st e).
+  Proof.
+    destruct st as [v d t]. unfold mapst. cbn [vis depth stag]. intro H.
+    destruct e as [g a|g|x|c]; cbn [step depth vis stag].
+    - destruct d as [|d].
+      + destruct (mem_str g remove); [destruct (mem_str g void)|]; cbn [vis depth stag]; try reflexivity.
+        rewrite Fs; auto.
+      + destruct (opt_str_eqb t g); reflexivity.
+    - destruct d as [|d]; [cbn [vis depth stag]; rewrite Fe; auto|].
+      destruct (opt_str_eqb t g); reflexivity.
+    - destruct d as [|d]; [cbn [vis depth stag]; rewrite Fd; auto | reflexivity].
+    - reflexivity.
+  Qed.
+
+  Lemma sim_run l : forall st, P (vis st) ->
+    run remove void s2 e2 d2 (mapst st) l = mapst (run remove void s1 e1 d1 st l).
+  Proof.
+    induction l as [|e l IH]; intros st H; [reflexivity|].
+    rewrite !run_cons. rewrite sim_step by exact H. apply IH.
+    apply (inv_step V1 remove void s1 e1 d1 P); auto.
+  Qed.
+End Sim.
+
+(* ------------------------------------------------------------------ the tree keeps all visible text, in order *)
+Fixpoint flat_kids (l : list node) : str :=
+  match l with [] => [] | c :: r => flat_node c ++ flat_kids r end.
+
+Lemma flat_node_eq t a x k tl : flat_node (Node t a x k tl) = x ++ flat_kids k ++ tl.
+Proof.
+  reflexivity.
+Qed.
+
+Lemma flat_kids_app a b : flat_kids (a ++ b) = flat_kids a ++ flat_kids b.
+Proof. induction a as [|c r IH]; [reflexivity|]. cbn [flat_kids app]. rewrite IH, app_assoc. reflexivity. Qed.
+
+Definition flat_frame (f : frame) : str := f_text f ++ flat_kids (f_kids f).
+
+Fixpoint flat_below (l : list frame) : str :=
+  match l with [] => [] | p :: rest => flat_below rest ++ flat_frame p end.
+
+Lemma flat_nof f : flat_node (node_of_frame f) = flat_frame f.
+Proof. unfold node_of_frame. rewrite flat_node_eq, app_nil_r. reflexivity. Qed.
+
+Lemma flat_flush n f : flat_frame (flush (Some n) f) = flat_frame f ++ flat_node n.
+Proof.
+  unfold flat_frame, flush. cbn [f_text f_kids]. rewrite flat_kids_app. cbn [flat_kids].
+  rewrite app_nil_r, app_assoc. reflexivity.
+Qed.
+
+Lemma flat_close_all below : forall cur, flat_node (close_all cur below) = flat_below below ++ flat_frame cur.
+Proof.
+  induction below as [|p rest IH]; intro cur; cbn [close_all flat_below].
+  - apply flat_nof.
+  - rewrite IH, flat_flush, flat_nof, app_assoc. reflexivity.
+Qed.
+
+Definition flat_vis (v : hvis) : str := flat_node (tree_of v).
+
+Lemma flat_vis_eq v : flat_vis v = flat_below (below v) ++ flat_frame (flush (lc v) (top v)).
+Proof. unfold flat_vis, tree_of. apply flat_close_all. Qed.
+
+(* last_closed is None only while the current element has no children yet *)
+Definition lc_inv (v : hvis) : Prop := lc v = None -> f_kids (top v) = [].
+
+Lemma lc_inv_start void v g a : lc_inv v -> lc_inv (h_start void v g a).
+Proof. unfold lc_inv, h_start. intros _. destruct (mem_str g void); cbn [lc top f_kids]; [discriminate | reflexivity]. Qed.
+
+Lemma lc_inv_end v g : lc_inv v -> lc_inv (h_end v g).
+Proof.
+  unfold lc_inv, h_end. intro H. destruct (below v); [exact H|].
+  destruct (str_eqb (f_tag (top v)) g); [cbn [lc]; discriminate | exact H].
+Qed.
+
+Lemma lc_inv_data v x : lc_inv v -> lc_inv (h_data v x).
+Proof.
+  unfold lc_inv, h_data. intro H. destruct (lc v) as [[t a tx k tl]|] eqn:E; cbn [lc top f_kids]; [discriminate|].
+  intros _. apply H. reflexivity.
+Qed.
+
+Lemma flat_start void v g a : flat_vis (h_start void v g a) = flat_vis v.
+Proof.
+  rewrite !flat_vis_eq. unfold h_start. destruct (mem_str g void); cbn [top below lc flat_below].
+  - rewrite flat_flush, flat_node_eq. cbn [flat_kids]. rewrite !app_nil_r. reflexivity.
+  - cbn [flush]. unfold flat_frame at 2. cbn [f_text f_kids flat_kids]. rewrite app_nil_r. reflexivity.
+Qed.
+
+Lemma flat_end v g : flat_vis (h_end v g) = flat_vis v.
+Proof.
+  unfold h_end. destruct (below v) as [|p rest] eqn:E; [reflexivity|].
+  destruct (str_eqb (f_tag (top v)) g); [|reflexivity].
+  rewrite !flat_vis_eq, E. cbn [top below lc flat_below]. rewrite flat_flush, flat_nof, app_assoc. reflexivity.
+Qed.
+
+Lemma flat_data v x : lc_inv v -> flat_vis (h_data v x) = flat_vis v ++ x.
+Proof.
+  intro I. rewrite !flat_vis_eq. unfold h_data.
+  destruct (lc v) as [[t a tx k tl]|] eqn:E; cbn [top below lc].
+  - rewrite !flat_flush, !flat_node_eq, !app_assoc. reflexivity.
+  - cbn [flush]. unfold flat_frame. cbn [f_text f_kids]. rewrite (I E). cbn [flat_kids].
+    rewrite !app_nil_r, app_assoc. reflexivity.
+Qed.
+
+Lemma html_text_preserved remove void l :
+  flat_node (tree_of (vis (html_build remove void l))) = visible_text remove void l.
+Proof.
+  unfold visible_text, html_build.
+  pose proof (sim_run hvis str remove void (h_start void) h_end h_data t_start t_end t_data flat_vis lc_inv
+                (fun v g a => lc_inv_start void v g a) lc_inv_end lc_inv_data
+                (fun v g a _ => flat_start void v g a) (fun v g _ => flat_end v g) flat_data l h_init) as H.
+  assert (I0 : lc_inv (vis h_init)) by (intro; reflexivity).
+  specialize (H I0).
+  assert (E0 : mapst hvis str flat_vis h_init = t_init) by reflexivity.
+  rewrite E0 in H. rewrite H. reflexivity.
+Qed.
+
+Lemma text_no_removable remove void l : no_removable remove l = true ->
+  forall (v : str) (t : option str),
+    run remove void t_start t_end t_data (mkSk v 0 t) l = mkSk (v ++ all_data l) 0 t.
+Proof.
+  induction l as [|e l IH]; intros H v t.
+  - cbn [all_data]. rewrite app_nil_r. reflexivity.
+  - cbn [no_removable forallb] in H. apply andb_true_iff in H as [H1 H2]. fold (no_removable remove l) in H2.
+    rewrite run_cons. destruct e as [g a|g|x|c]; cbn [step depth vis stag all_data].
+    + apply negb_true_iff in H1. rewrite H1. unfold t_start. apply IH. exact H2.
+    + unfold t_end. apply IH. exact H2.
+    + unfold t_data. rewrite IH by exact H2. rewrite app_assoc. reflexivity.
+    + apply IH. exact H2.
+Qed.
+
+Lemma html_all_text remove void l : no_removable remove l = true ->
+  flat_node (tree_of (vis (html_build remove void l))) = all_data l.
+Proof.
+  intro H. rewrite html_text_preserved.
+  exact (f_equal vis (text_no_removable remove void l H [] None)).
+Qed.
